@@ -660,6 +660,26 @@ class C08(Monitor):
         self.prescribed(node, pool, ind, "service start at")
         self.seen("c08_starts")
 
+    def pre_slot(self, node, ctx):
+        ctx["c08_pool"] = [i for i in here(node) if i.service_start_date is False and not i.interrupted
+                           and not any(i is x for x in node.interrupted_individuals)]
+
+    def post_slot(self, node, ctx):
+        pool = ctx.get("c08_pool", [])
+        started = [i for i in pool if i.service_start_date is not False and any(i is x for x in here(node))]
+        still = [i for i in pool if i.service_start_date is False and any(i is x for x in here(node))]
+        d = node.service_discipline
+        for s_ in started:
+            for w in still:
+                self.ck(w.priority_class >= s_.priority_class, "slot_not_highest_priority",
+                        lambda: "slot at node %s started customer %s (priority %s) while customer %s (priority %s) waits" % (node.id_number, s_.id_number, s_.priority_class, w.id_number, w.priority_class))
+                if w.priority_class == s_.priority_class and not self.Q.flags.get("priority_changes_while_waiting"):
+                    if d is ciw.disciplines.FIFO:
+                        self.ck(s_._acc < w._acc, "slot_fifo_order", lambda: "slot at node %s (FIFO) started customer %s before earlier customer %s" % (node.id_number, s_.id_number, w.id_number))
+                    elif d is ciw.disciplines.LIFO:
+                        self.ck(s_._acc > w._acc, "slot_lifo_order", lambda: "slot at node %s (LIFO) started customer %s before later customer %s" % (node.id_number, s_.id_number, w.id_number))
+            self.seen("c08_slot_starts")
+
     def at_end(self):
         """records: under FIFO nobody overtakes an equal-or-higher priority earlier arrival"""
         Q = self.Q
@@ -1333,6 +1353,22 @@ class C14(Monitor):
 
     def at_init(self):
         self.exec_dates = []
+        self.last_sig = None
+
+    def post_event(self, node, nxt, ctx):
+        """no progress: the same event at the same instant leaves the whole configuration unchanged -> the run would
+        repeat it forever and never return"""
+        Q = self.Q
+        now = Q.current_time
+        key = now.lin.key() if isinstance(now, SymReal) else now
+        inds = all_inds(Q)
+        sig = (E.EX.path_events[-1], key, tuple(len(here(n)) for n in Q.transitive_nodes), len(Q.nodes[-1].all_individuals),
+               tuple(sorted(i.id_number for i in inds if i.is_blocked)), sum(len(i.data_records) for i in inds), len(Q.tr.arrivals),
+               len(Q.tr.attach), len(Q.tr.detach), len(Q.tr.shifts), len(Q.tr.class_changes))
+        if self.last_sig is not None:
+            self.ck(sig != self.last_sig, "event_repeats_without_progress",
+                    lambda: "event %d (%s at %s) changed nothing and is identical to the previous event: the run cannot advance" % (Q.tr.event_no, E.EX.path_events[-1], now))
+        self.last_sig = sig
 
     def my_count(self, method):
         Q = self.Q
